@@ -19,8 +19,8 @@ from engine.harness import Check, cps
 ALPHABET = "[]\\/=#ab1 \n:"            # the quantifier's alphabet (12 symbols)
 SAFE = "ab 1:=#/\nxyz"                 # text that needs no escaping
 # fixed tag vocabulary of Markup.tla (id -> markup text); TagKey / TagSty live in the spec
-TAG_TEXT = {1: "red", 2: "blue", 3: "bold", 4: "b", 5: "on white", 6: "bold red", 7: "link=U",
-            8: "link=V", 9: "not bold", 10: "zz"}
+TAG_TEXT = {1: "red", 2: "blue", 3: "bold", 4: "b", 5: "on white", 6: "bold red", 7: "link=U?q=1",
+            8: "link=V;x=2&y", 9: "not bold", 10: "zz"}
 TAG_KEY = {1: "red", 2: "blue", 3: "bold", 4: "bold", 5: "on white", 6: "bold red", 7: "link",
            8: "link", 9: "not bold", 10: "zz"}           # only used to bias generators
 CLOSE_SPELL = {"red": ["red"], "blue": ["blue"], "bold": ["bold", "b"], "on white": ["on white"],
@@ -88,7 +88,7 @@ class Env:
         fg_i = {None: 0, "red": 1, "blue": 2}.get(col, 9)
         bg_i = {None: 0, "white": 1}.get(bg, 9)
         bold_i = {None: 0, True: 1, False: 2}[style.bold]
-        link_i = {None: 0, "U": 1, "V": 2}.get(style.link, 9)
+        link_i = {None: 0, "U?q=1": 1, "V;x=2&y": 2}.get(style.link, 9)     # targets with = ; & must arrive whole
         other = 0
         for a in ("dim", "italic", "underline", "blink", "blink2", "reverse", "conceal", "strike",
                   "underline2", "frame", "encircle", "overline"):
